@@ -4,11 +4,7 @@ import importlib, json, os, sys
 HERE = os.path.dirname(os.path.dirname(os.path.abspath(__file__)))
 sys.path.insert(0, HERE)
 
-NOT_APPLICABLE = {
-    "C04": "quantifies over delivery schedules x program shapes; truth depends on runtime positions/lengths of two differently "
-           "shaped traces (slider/FSM arithmetic). No structural clause specific to it beyond those claimed under C07-C10/C12 is a "
-           "necessary condition, and the arithmetic itself is out of reach of a sound static argument without symbolic reasoning.",
-}
+NOT_APPLICABLE = {}
 TECH = {
     "C01": "MIR reachability census of panic/alloc/recursion/unsafe sites with guard recognition and an exact-count allow-list; positive-control fixture analysed by the same driver",
     "C02": "MIR def-use provenance of outcome arguments + path-sensitive dispatch table + closed constructor-site set + const/ADT facts",
@@ -77,7 +73,7 @@ m = {
          "kind_free_text": "rustc_private fact extractor: dumps the type-checked program (MIR CFG, resolved callees, ADTs, impls, consts, unsafe blocks) as JSON"},
         {"name": "rules", "path": "/verif/rules", "serves_properties": [c["property_id"] for c in checks],
          "kind_free_text": "Python evaluators: dominators, edge guards in comparison normal form, def-use provenance, field-writer census, decision-table extraction by path-sensitive dataflow"},
-        {"name": "fixture", "path": "/verif/fixtures/positive", "serves_properties": ["C01", "C06", "C07", "C08", "C09", "C12", "C13", "C20", "C23"],
+        {"name": "fixture", "path": "/verif/fixtures/positive", "serves_properties": ["C01", "C04", "C06", "C07", "C08", "C09", "C12", "C13", "C20", "C23"],
          "kind_free_text": "positive-control crate: one deliberate violation per census / zero-expected rule, analysed by airlint on every run; a matcher that stops firing fails the check"},
         {"name": "props", "path": "/verif/props", "serves_properties": [c["property_id"] for c in checks],
          "kind_free_text": "per-property rule tables (instances, floors, reasons) and verdict logic"},
